@@ -81,9 +81,19 @@ def specVar (d : Var) (b : Body) (tick : Nat) (v0 : Val) (u0 : Option Nat) : Val
     | .error _ => (.none, u0, true)
     | .ok v => if validate d v then (v, some tick, true) else (v0, u0, false)
 
+/-- the property set carries a text for the variable that cannot be converted -/
+def unconvertible (d : Var) (b : Body) : Bool :=
+  match carried d.decl.name b with
+  | some text => (match convert d text with | .error _ => true | .ok _ => false)
+  | none => false
+
+/-- value and listing always as `specVar` says; `updated_at` too, except for an unconvertible text: the property
+    says such a value "reads back as absent" and nothing about its time stamp (audit C10-2) -/
 def varOk (d : Var) (b : Body) (tick : Nat) (listed : List Str) (o0 o1 : VarObs) : Bool :=
   o0.1 == d.decl.name && o1.1 == d.decl.name
-  && (o1.2.1, o1.2.2, listed.contains d.decl.name) == specVar d b tick o0.2.1 o0.2.2
+  && o1.2.1 == (specVar d b tick o0.2.1 o0.2.2).1
+  && listed.contains d.decl.name == (specVar d b tick o0.2.1 o0.2.2).2.2
+  && (unconvertible d b || o1.2.2 == (specVar d b tick o0.2.1 o0.2.2).2.1)
 
 def zip3 {α β γ : Type} : List α → List β → List γ → List (α × β × γ)
   | a :: as, b :: bs, c :: cs => (a, b, c) :: zip3 as bs cs
